@@ -210,6 +210,27 @@ NA = {
 
 PENDING = "no claim yet: the static rule set for this property is still under construction in this session (design in DESIGN.md section 4); it is not decided by any registered check"
 
+# Rules shared across properties (same decision procedure registered under the name of every property
+# of which the decided fact is a necessary condition); appended to the claim text of each.
+CODEC = (" (codec) The value codecs are decided as in C15 — size reports agree, I8..U64 are width-preserving bijections around LittleEndian "
+         "Put/Get, String16's header is written and read as a big-endian 16-bit length, TypeEncoder goes only through encoding/binary with "
+         "its configured order and type: returning the value that was supplied presupposes Decode(Encode(v)) = v.")
+EXTRA = {
+ "C01": CODEC + " The builder keeps no state from one construction to the next (build-stateless) and the options in force are the normalised ones (options).",
+ "C02": CODEC,
+ "C10": CODEC,
+ "C14": CODEC + " (trim) 'including loaded tries': bitmap words assembled by hand under Unmarshal are not trimmed with an unguarded mask(n&63) (rule shared with C06).",
+ "C18": " (empty-legacy) 'KeyCnt is preserved when an equivalent legacy stream is loaded': no branch of the legacy loader decides emptiness from the children array alone (rule shared with C06).",
+ "C16": CODEC,
+ "C12": (" (trie) SlimIndex.Get is SlimTrie.Get followed by the reader, so the lookup mechanisms decided for C01 (bigzone, bitslice, labelrange, "
+         "rank-last-bit) and the acceptance/narrowing rules of C08 (no silent truncation of a step, construction refused only for disorder or "
+         "an over-long run) are registered here as well."),
+ "C13": (" (narrow) Only the modes without stored inner prefixes narrow the step to 16 bits: every narrowing conversion on the construction "
+         "path is bounded (rule shared with C08), so no mode silently loses retained keys that another mode finds."),
+}
+for _k, _v in EXTRA.items():
+    CLAIMS[_k]["text"] = CLAIMS[_k]["text"] + _v
+
 def main():
     props = [json.loads(l) for l in open(os.path.join(VERIF, "properties.jsonl"))]
     checks, na = [], []
@@ -252,7 +273,7 @@ def main():
         "not_applicable": na,
         "notes": ("Technique family: static analysis only. All claims are at level 'other': each decides named structural clauses "
                   "(necessary conditions or complete proofs of a clause) of its property from the current source of /repo, for all "
-                  "inputs/schedules/cut points, and says what it does not decide. Genuine defects found: four, all repaired by "
+                  "inputs/schedules/cut points, and says what it does not decide. Genuine defects found: five, all repaired by "
                   "'fix:' commits in /repo and recorded in KNOWN_FINDINGS.txt."),
     }
     json.dump(m, open(os.path.join(VERIF, "MANIFEST.json"), "w"), indent=1)
